@@ -7,6 +7,7 @@
  * /proc/self/fd/<memfd>.  Sub-spaces (see notes/dnse2e.md for the readings):
  *   G  resolv.conf files made of every ordered pair (and every single, under every
  *      flag subset / line ending) of the directive lines in rc_lines[],
+ *   G3 (thorough) every ordered triple of those lines;  HL every single / ordered pair of the hosts lines in hosts_lines[],
  *   R  every sequence of <= len tokens over the 10-token alphabet rc_tok[] as resolv.conf,
  *   H  every sequence of <= len tokens over hosts_tok[] as hosts file,
  *   C  every string of <= len characters over hosts_chr[] as hosts file,
@@ -43,8 +44,23 @@ static void set_file(const char *data, size_t len)
 static int all_digits(const char *s) { if (!*s) return 0; for (; *s; s++) if (!isdigit((unsigned char)*s)) return 0; return 1; }
 static int ref_port_text(const char *s) { if (!all_digits(s) || strlen(s) > 5) return -1; int v = atoi(s); return v >= 1 && v <= 65535 ? v : -1; }
 
+/* IPv6 literal with an optional %zone (scoped address): the zone must name an interface or be a
+ * decimal index; 1 valid, 0 invalid, -2 not pinned (empty zone) */
+#include <net/if.h>
+static int ref_pton6_zone(const char *txt, struct in6_addr *out)
+{
+	char buf[160]; const char *pc = strchr(txt, '%');
+	if (!pc) return inet_pton(AF_INET6, txt, out) == 1;
+	if (!pc[1]) return -2;
+	if ((size_t)(pc - txt) >= sizeof buf) return 0;
+	if (!if_nametoindex(pc + 1) && !(all_digits(pc + 1) && strlen(pc + 1) <= 9)) return 0;
+	memcpy(buf, txt, pc - txt); buf[pc - txt] = 0;
+	return inet_pton(AF_INET6, buf, out) == 1;
+}
+
 static int ref_parse_addr(const char *txt, struct sockaddr_storage *out, int *outlen, int *had_port)
 {
+	int zr;
 	char buf[160]; struct sockaddr_in sin; struct sockaddr_in6 sin6; int port = 0;
 	size_t n = strlen(txt);
 	*had_port = 0;
@@ -56,13 +72,13 @@ static int ref_parse_addr(const char *txt, struct sockaddr_storage *out, int *ou
 		memcpy(buf, txt + 1, rb - txt - 1); buf[rb - txt - 1] = 0;
 		if (rb[1] == ':') { port = ref_port_text(rb + 2); if (port < 0) return -1; *had_port = 1; }
 		else if (rb[1]) return -2;               /* junk after ']': documentation silent */
-		if (inet_pton(AF_INET6, buf, &sin6.sin6_addr) != 1) return -1;
+		if ((zr = ref_pton6_zone(buf, &sin6.sin6_addr)) != 1) return zr == -2 ? -2 : -1;
 		sin6.sin6_family = AF_INET6; sin6.sin6_port = htons(port);
 		memcpy(out, &sin6, sizeof sin6); *outlen = sizeof sin6; return 0;
 	}
 	const char *c1 = strchr(txt, ':');
 	if (c1 && strchr(c1 + 1, ':')) {
-		if (inet_pton(AF_INET6, txt, &sin6.sin6_addr) != 1) return -1;
+		if ((zr = ref_pton6_zone(txt, &sin6.sin6_addr)) != 1) return zr == -2 ? -2 : -1;
 		sin6.sin6_family = AF_INET6;
 		memcpy(out, &sin6, sizeof sin6); *outlen = sizeof sin6; return 0;
 	}
@@ -322,7 +338,7 @@ static void ref_hosts(struct conf *c, const char *text)
 			struct sockaddr_in sin; struct sockaddr_in6 sin6;
 			memset(&ss, 0, sizeof ss); memset(&sin, 0, sizeof sin); memset(&sin6, 0, sizeof sin6);
 			if (inet_pton(AF_INET, tok[0], &sin.sin_addr) == 1) { sin.sin_family = AF_INET; memcpy(&ss, &sin, sizeof sin); len = sizeof sin; ok = 1; }
-			else if (inet_pton(AF_INET6, tok[0], &sin6.sin6_addr) == 1) { sin6.sin6_family = AF_INET6; memcpy(&ss, &sin6, sizeof sin6); len = sizeof sin6; ok = 1; }
+			else if (ref_pton6_zone(tok[0], &sin6.sin6_addr) == 1) { sin6.sin6_family = AF_INET6; memcpy(&ss, &sin6, sizeof sin6); len = sizeof sin6; ok = 1; }
 			if (ok)
 				for (int i = 1; i < nt; i++) {
 					if (c->nhosts >= 48) { c->hosts_overflow = 1; break; }
@@ -448,13 +464,13 @@ static const char *const rc_lines[] = {
 	"nameserver 1.2.3.4", "nameserver 1.2.3.4:5353", "nameserver ::1", "nameserver [::1]:5353", "nameserver [2001:db8::7]", "nameserver 2001:db8::7",
 	"nameserver 10.0.0.1 10.0.0.2", "nameserver\t10.0.0.3", "nameserver  10.0.0.4  ", "nameserver 1.2.3", "nameserver 1.2.3.4.5", "nameserver 256.1.1.1",
 	"nameserver 1.2.3.4:0", "nameserver 1.2.3.4:65536", "nameserver 1.2.3.4:", "nameserver [::1", "nameserver ::1::2", "nameserver", "nameserver ", "nameserverx 9.9.9.9",
-	"nameserver localhost", "nameserver 1.2.3.4:65535", "nameserver 1.2.3.4:53x", "nameserver 1.2.3.4:5.3", "nameserver [::1]:53x", "nameserver 1.2.3.4:+53",
+	"nameserver localhost", "nameserver 1.2.3.4:65535", "nameserver fe80::1%nosuchzone", "nameserver fe80::1%lo", "nameserver fe80::1%1", "nameserver [fe80::1%nosuchzone]:53", "nameserver [fe80::2%lo]:5353", "nameserver fe80::1%1x", "nameserver 1.2.3.4%lo", "nameserver 1.2.3.4:53x", "nameserver 1.2.3.4:5.3", "nameserver [::1]:53x", "nameserver 1.2.3.4:+53",
 	"domain a.example", "domain", "domain x.example y.example", "search a.example b.example", "search s1.example", "search", "search a b c d e f g h",
 	"search  two.example\tthree.example ",
 	"options ndots:2", "options ndots:0", "options ndots:15", "options ndots:x", "options ndots:", "options ndots", "options ndots:2x", "options ndots:3 timeout:4 attempts:2",
 	"options ndots:x timeout:7", "options timeout:7 ndots:x attempts:3", "options timeout:1", "options timeout:30", "options timeout:x", "options timeout:",
 	"options attempts:1", "options attempts:5", "options attempts:y", "options max-timeouts:4", "options max-inflight:2", "options max-inflight:q",
-	"options randomize-case:0", "options randomize-case:1", "options bind-to:127.0.0.1", "options bind-to:nonsense", "options bind-to:127.0.0.1:7x", "options initial-probe-timeout:20",
+	"options randomize-case:0", "options randomize-case:1", "options bind-to:127.0.0.1", "options bind-to:nonsense", "options bind-to:fe80::1%nosuchzone", "options bind-to:127.0.0.1:7x", "options initial-probe-timeout:20",
 	"options max-probe-timeout:5", "options max-probe-timeout:100 initial-probe-timeout:50", "options initial-probe-timeout:50 max-probe-timeout:7", "options probe-backoff-factor:2",
 	"options getaddrinfo-allow-skew:5", "options so-rcvbuf:8192", "options so-sndbuf:4096", "options tcp-idle-timeout:9", "options use-vc", "options ignore-tc",
 	"options use-vc:1", "options ignore-tc use-vc", "options edns-udp-size:1232", "options edns-udp-size:big", "options rotate", "options unknown:5 ndots:4", "options", "options :", "options ::",
@@ -468,12 +484,18 @@ static const int flagsets[] = { DNS_OPTION_SEARCH | DNS_OPTION_NAMESERVERS | DNS
 #define N_FLAGSETS 6
 #define ALLF (DNS_OPTION_SEARCH | DNS_OPTION_NAMESERVERS | DNS_OPTION_MISC)
 
+static const char *const hosts_lines[] = {
+	"1.2.3.4 a", "1.2.3.4 a b c", "::1 a6", "2001:db8::9\tv6.example alias6", "1.2.3.4 a # comment b", "1.2.3.4 a#b c", "# 1.2.3.4 commented", "#1.2.3.4 x",
+	"1.2.3.4", "1.2.3.4 ", "1.2.3 bad", "1.2.3.4:80 port", "[::1] bracket", "256.1.1.1 big", "fe80::1%lo scoped", "fe80::1%1 scoped1", "fe80::1%nosuchzone badzone",
+	"fe80::1%1x badzone2", "fe80::1%nosuchzone", "  10.0.0.1   lead  ", "10.0.0.2\ttab\ttab2", "10.0.0.3 A", "10.0.0.4 a", "", "   ", "\r", "10.0.0.5 cr\r", "name 1.2.3.4", "::ffff:1.2.3.4 mapped",
+};
+#define N_HL ((int)(sizeof hosts_lines / sizeof hosts_lines[0]))
 static const char *const rc_tok[10] = { "nameserver", "options", "search", " ", "\n", "1.2.3.4", "ndots:3", "x.y", "#", ":" };
 static const char *const hosts_tok[10] = { "1.2.3.4", "::1", "a", "b.c", " ", "\t", "\n", "#", ":9", "7" };
 static const char hosts_chr[10] = { '1', '.', ':', ' ', '\t', '\n', '#', 'a', '\r', 'f' };
 
 static const char *const opt_vals[] = { NULL, "", "0", "1", "2", "5", "15", "16", "30", "255", "256", "512", "3600", "3601", "65000", "65535", "65536", "99999999999",
-	"-1", "-2", "+1", "x", "1x", "x1", "1.5", "0.0005", "1e3", " 1", "1 ", "127.0.0.1", "::1", "1.2.3.4:5", "[::1]:53", "bad.addr", "1.2.3.4.5", "1.2.3.4:5x" };
+	"-1", "-2", "+1", "x", "1x", "x1", "1.5", "0.0005", "1e3", " 1", "1 ", "127.0.0.1", "::1", "1.2.3.4:5", "[::1]:53", "bad.addr", "1.2.3.4.5", "1.2.3.4:5x", "fe80::1%nosuchzone", "fe80::1%lo" };
 #define N_OPTVALS ((int)(sizeof opt_vals / sizeof opt_vals[0]))
 static const char *const opt_extra_names[] = { "", ":", "x", "ndot", "ndotss", "timeoutx", "attempt", "use", "rotate", "ndots:5", "timeout:junk", "bind-to:1.2.3.4" };
 #define N_EXTRA ((int)(sizeof opt_extra_names / sizeof opt_extra_names[0]))
@@ -488,7 +510,8 @@ static const char *optname(int i, char *buf, size_t n)
 static const char *const pair_vals[] = { "", "2", "7", "x" };
 
 static int LEN = 4, LEN_R, LEN_H, LEN_C;
-static uint64_t n_G1, n_G2, n_R, n_H, n_C, n_O1, n_O2;
+static uint64_t n_G1, n_G2, n_G3, n_HL, n_R, n_H, n_C, n_O1, n_O2;
+static int TRIPLES;
 static uint64_t pow10_upto(int len) { uint64_t t = 0, p = 1; for (int l = 0; l <= len; l++) { t += p; p *= 10; } return t; }   /* strings of length 0..len */
 
 /* decode index -> sequence of symbols of length 0..LEN */
@@ -576,7 +599,7 @@ static void run_options(int n, const int *names, const char *const *vals)
 
 static void item(uint64_t i)
 {
-	char text[1024]; int sym[8], l;
+	char text[1400]; int sym[8], l;
 	long live0 = a_live;
 	if (i < n_G1) {
 		/* single line x flag set x ending {"", "\n", "\r\n"} */
@@ -588,7 +611,17 @@ static void item(uint64_t i)
 		int a = (int)(i % N_RC), b = (int)(i / N_RC % N_RC), en = (int)(i / N_RC / N_RC);
 		snprintf(text, sizeof text, "%s\n%s%s", rc_lines[a], rc_lines[b], en ? "\n" : "");
 		run_resolv("resolv-pair", text, ALLF);
-	} else if ((i -= n_G2) < n_R) {
+	} else if ((i -= n_G2) < n_G3) {
+		/* ordered triple of lines (thorough) */
+		int a = (int)(i % N_RC), b = (int)(i / N_RC % N_RC), c = (int)(i / N_RC / N_RC);
+		snprintf(text, sizeof text, "%s\n%s\n%s\n", rc_lines[a], rc_lines[b], rc_lines[c]);
+		run_resolv("resolv-triple", text, ALLF);
+	} else if ((i -= n_G3) < n_HL) {
+		/* hosts lines: singles x 3 endings, then ordered pairs x final newline or not */
+		if (i < (uint64_t)N_HL * 3) snprintf(text, sizeof text, "%s%s", hosts_lines[i % N_HL], i / N_HL == 0 ? "" : i / N_HL == 1 ? "\n" : "\r\n");
+		else { uint64_t j = i - (uint64_t)N_HL * 3; snprintf(text, sizeof text, "%s\n%s%s", hosts_lines[j % N_HL], hosts_lines[j / N_HL % N_HL], j / N_HL / N_HL ? "\n" : ""); }
+		run_hosts("hosts-lines", text, strlen(text));
+	} else if ((i -= n_HL) < n_R) {
 		l = seq_decode(i, sym); text[0] = 0;
 		for (int k = 0; k < l; k++) strcat(text, rc_tok[sym[k]]);
 		run_resolv("resolv-tokens", text, ALLF);
@@ -635,15 +668,17 @@ int main(int argc, char **argv)
 		if (!strncmp(argv[i + 1], "lenR=", 5)) LEN_R = atoi(argv[i + 1] + 5);
 		if (!strncmp(argv[i + 1], "lenH=", 5)) LEN_H = atoi(argv[i + 1] + 5);
 		if (!strncmp(argv[i + 1], "lenC=", 5)) LEN_C = atoi(argv[i + 1] + 5);
+		if (!strncmp(argv[i + 1], "triples=", 8)) TRIPLES = atoi(argv[i + 1] + 8);
 	}
 	if (LEN < 1) LEN = 1;
-	if (LEN > 7) LEN = 7;
-	if (LEN_R < 1 || LEN_R > 7) LEN_R = LEN;
-	if (LEN_H < 1 || LEN_H > 7) LEN_H = LEN;
-	if (LEN_C < 1 || LEN_C > 7) LEN_C = LEN;
+	if (LEN > 8) LEN = 8;
+	if (LEN_R < 1 || LEN_R > 8) LEN_R = LEN;
+	if (LEN_H < 1 || LEN_H > 8) LEN_H = LEN;
+	if (LEN_C < 1 || LEN_C > 8) LEN_C = LEN;
 	n_G1 = (uint64_t)N_RC * N_FLAGSETS * 3; n_G2 = (uint64_t)N_RC * N_RC * 2;
+	n_G3 = TRIPLES ? (uint64_t)N_RC * N_RC * N_RC : 0; n_HL = (uint64_t)N_HL * 3 + (uint64_t)N_HL * N_HL * 2;
 	n_R = pow10_upto(LEN_R); n_H = pow10_upto(LEN_H); n_C = pow10_upto(LEN_C);
 	n_O1 = (uint64_t)N_OPTNAMES * N_OPTVALS; n_O2 = (uint64_t)N_OPTNAMES * 4 * N_OPTNAMES * 4;
-	struct mc_config cfg = { .property = "C39", .n_items = n_G1 + n_G2 + n_R + n_H + n_C + n_O1 + n_O2, .item = item, .init = init };
+	struct mc_config cfg = { .property = "C39", .n_items = n_G1 + n_G2 + n_G3 + n_HL + n_R + n_H + n_C + n_O1 + n_O2, .item = item, .init = init };
 	return mc_main(argc, argv, &cfg);
 }
